@@ -43,8 +43,9 @@ def _apply(repo, edits):
     return overlay
 
 
-def apply_unified_diff(repo, diff_text):
-    """Pure-python application of a unified diff to files under repo -> overlay {rel: text}, or None if a hunk does not fit."""
+def apply_unified_diff(repo, diff_text, sources=None):
+    """Pure-python application of a unified diff to files under repo (or to the given {rel: text} sources)
+    -> overlay {rel: text}, or None if a hunk does not fit."""
     import re
 
     overlay = {}
@@ -62,11 +63,16 @@ def apply_unified_diff(repo, diff_text):
         elif files and files[-1][1] and (line[:1] in (" ", "+", "-") or line == "") and not line.startswith("--- "):
             files[-1][1][-1]["lines"].append(line if line else " ")
     for rel, hs in files:
-        fp = os.path.join(repo, rel)
-        if not os.path.isfile(fp):
-            return None
-        with open(fp, encoding="utf8") as fh:
-            src = fh.read().split("\n")
+        if sources is not None:
+            if rel not in sources:
+                return None
+            src = sources[rel].split("\n")
+        else:
+            fp = os.path.join(repo, rel)
+            if not os.path.isfile(fp):
+                return None
+            with open(fp, encoding="utf8") as fh:
+                src = fh.read().split("\n")
         shift = 0
         for h in hs:
             old = [l[1:] for l in h["lines"] if l[:1] in (" ", "-")]
@@ -131,6 +137,37 @@ def corpus_variants(prop):
     return out
 
 
+def _stale_overlays(repo, patch_path):
+    """({rel: text at the patch's base commit}, {rel: that text with the patch applied}) or None"""
+    import json
+    import subprocess
+
+    mp = os.path.join(os.path.dirname(patch_path), "meta.json")
+    try:
+        with open(mp) as fh:
+            base = json.load(fh).get("base_commit")
+        with open(patch_path, encoding="utf8") as fh:
+            text = fh.read()
+    except Exception:
+        return None
+    if not base:
+        return None
+    files = [l[6:].strip() for l in text.splitlines() if l.startswith("+++ b/")]
+    srcs = {}
+    for rel in files:
+        try:
+            r = subprocess.run(["git", "-C", repo, "show", f"{base}:{rel}"], capture_output=True, text=True, timeout=30)
+        except Exception:
+            return None
+        if r.returncode != 0:
+            return None
+        srcs[rel] = r.stdout
+    ov = apply_unified_diff(repo, text, sources=srcs)
+    if ov is None:
+        return None
+    return srcs, ov
+
+
 def _run_variant(args):
     prop, repo, overlay = args
     from .check import run_rules
@@ -168,6 +205,14 @@ def run_battery(prop, repo, base_failures, seed=0, jobs=16):
                 ov = apply_unified_diff(repo, fh.read())
         else:
             ov = _apply(repo, v["edits"])
+        if ov is None and "patch" in v:
+            # the change was made against an earlier commit and a later fix touched the same lines: replay it on the files as
+            # they were at its own base, and compare with the verdict on those base files (not with today's tree)
+            st = _stale_overlays(repo, v["patch"])
+            if st is not None:
+                base_ov, ov = st
+                s0, f0, e0 = _run_variant((prop, repo, base_ov))
+                v = dict(v, _own_base=set(tuple(f) for f in f0) if s0 == "ok" else set(), id=v["id"] + "@own-base")
         if ov is None:
             results.append(dict(id=v["id"], kind=v["kind"], verdict="skipped", detail="anchor text not present in the current tree"))
             continue
@@ -176,7 +221,7 @@ def run_battery(prop, repo, base_failures, seed=0, jobs=16):
         outs = list(ex.map(_run_variant, [(prop, repo, ov) for _, ov in work]))
     broken = []
     for (v, _), (status, fails, err) in zip(work, outs):
-        new = [tuple(f) for f in fails if tuple(f) not in base]
+        new = [tuple(f) for f in fails if tuple(f) not in base and tuple(f) not in v.get("_own_base", ())]
         if status == "ok" and err and (not new or v["kind"] == "twin"):
             status = "analysis-error"  # a rule refused and nothing else fired
         exp = v.get("expect")
